@@ -25,8 +25,8 @@ RULE = ('Generated panels (2-6 geos quick / 2-7 thorough for both searches, 8-20
 ASSUMPTIONS = ['a search that raises is not judged here (C09 owns totality); such outcomes are counted',
                'admitted-set model is skipped when a share / budget / truncation comparison is within 1e-9 of flipping']
 EXHAUSTIVE = {'quick': False, 'thorough': False}
-MINIMA = {'quick': {'shared_data_searches': 40, 'designs_checked': 300, 'admitted_checked': 150, 'distinct_nontrivial': 100, 'greedy_large': 10},
-          'thorough': {'shared_data_searches': 400, 'designs_checked': 5000, 'admitted_checked': 2000, 'distinct_nontrivial': 1500, 'greedy_large': 100}}
+MINIMA = {'quick': {'searches_after_query_result_edits': 60, 'shared_data_searches': 40, 'designs_checked': 300, 'admitted_checked': 150, 'distinct_nontrivial': 100, 'greedy_large': 10},
+          'thorough': {'searches_after_query_result_edits': 600, 'shared_data_searches': 400, 'designs_checked': 5000, 'admitted_checked': 2000, 'distinct_nontrivial': 1500, 'greedy_large': 100}}
 N = {'quick': 360, 'thorough': 3000}
 N_LARGE = {'quick': 40, 'thorough': 240}
 CASE_TIMEOUT = {'quick': 300, 'thorough': 900}
@@ -119,7 +119,8 @@ def run_case(spec):
   admitted = None
   shared = spec['idx'] % 4 == 1      # A.search -> B.search (same data object) -> A.search, last call judged
   for which in which_list:
-    rec = sl.run_search(case, which, interleave=(r if shared else None))
+    rec = sl.run_search(case, which, interleave=(r if shared else None), edit_query_results=(spec['idx'] % 4 == 3))
+    counters['searches_after_query_result_edits'] += bool(rec.get('query_edits'))
     counters['shared_data_searches'] += bool(rec.get('interleaved'))
     if not rec['outcome'].ok:
       outcomes.append(sp.search_failed(rec, which))
